@@ -143,21 +143,22 @@ THOROUGH = {
 
 # rule families added after the second seeding round (appended to the technique field)
 ADDED = {
- "C01": "; match-table rule for the per-block external-signature scheme; inlining of delegated payload generators",
+ "C01": "; finite abstract evaluation (interpreter over constructor tags) of the per-block verification-mode expression; provenance rule for every Biscuit construction site; match-table rule for the per-block external-signature scheme; inlining of delegated payload generators",
  "C02": "; last-block selector rule for the seal; verbatim-copy rule (single-definition def chain) for root_key_id; table-threading rules of the append paths",
  "C03": "; per-evaluation scope-argument rule (the trust passed to query_match* is the variable computed from that query's scopes); verbatim-copy detection in Rule::translate",
- "C04": "; per-evaluation scope-argument rule; verbatim-copy detection in Rule::translate",
- "C05": "; both-operands rule (flow-sensitive may-depend per return, with a dominating-superset exception) for Origin::union",
+ "C04": "; finite abstract evaluation of the final decision of authorize_inner (6 cells), of find_match (3) and of the policy-kind assignment; per-evaluation scope-argument rule; verbatim-copy detection in Rule::translate",
+ "C05": "; finite abstract evaluation of the term matcher over all pairs of Term variants; both-operands rule (flow-sensitive may-depend per return, with a dominating-superset exception) for Origin::union",
  "C06": "; operand-role oracle for the non-commutative operators with pattern-binding tracking; stack pop-order rule; error-discipline rule for every symbol lookup",
  "C07": "; match-table rule for the scheme selection; single-use rule for the token-level table in the block loader",
- "C08": "; last-block selector rule",
+ "C08": "; finite abstract evaluation of TokenNext::is_sealed / keypair; last-block selector rule",
  "C09": "; allow-list premises re-evaluated against the rule instances of the property they cite",
  "C10": "; position rule fact-budget-before-fixpoint-exit; CFG rules on Authorizer::run (time recorded on every exit, evaluated-marker only under the success edge); unit agreement across snapshots",
- "C12": "; sibling rule for the two block accessors; single-use rule for the token-level table",
+ "C12": "; membership-test rule (no binary_search over unsorted tables); sibling rule for the two block accessors; single-use rule for the token-level table",
  "C13": "; unit agreement (as_nanos/from_nanos), zero-is-none guard, snapshot-table extension pairing, check-kind gate agreement of the two block loaders, saved-version dependence rule",
- "C14": "; producer/consumer field-coverage rule by projected type (parser result vs loaders, block carriers vs printers); pop-order rule; sibling rule for the block accessors",
- "C16": "; gate-comparison rule for check kinds; unconditional-gate rule (not inside a loop or closure)",
+ "C14": "; substituted-clone rule for parameterised printers; producer/consumer field-coverage rule by projected type (parser result vs loaders, block carriers vs printers); pop-order rule; sibling rule for the block accessors",
+ "C16": "; finite abstract evaluation of check_compatibility (64 cells) and block_signature_version (40 cells) against the specification; gate-comparison rule for check kinds; unconditional-gate rule (not inside a loop or closure)",
  "C17": "; remainder rule for string conversions built on grammar parsers (callee ends with eof, or the remainder is used); whole-run hex decoding rule",
+ "C19": "; name-agreement table rule for error_kind (each error maps to the kind that names it)",
  "C18": "; parallel-binding rule over the generated `let` token sequences",
- "C20": "; parallel-binding rule over the generated `let` token sequences",
+ "C20": "; overwrite rule for parameter setters; parallel-binding rule over the generated `let` token sequences",
 }
